@@ -3,7 +3,7 @@
    trees (encoding/json does the text <-> tree step and is exercised by the correspondence runs, not modelled).
    to-functions model MarshalJSON / String(), of-functions UnmarshalJSON into a fresh zero value / the text parsers. *)
 From UV Require Import Proofs.WireProofs Proofs.AddrProofs Proofs.TextProofs.
-From UV Require Import Base.Bytes Model.WireTypes Spec.WireSpec Model.Addr Model.Cases15 Model.TextForms Model.Cases14.
+From UV Require Import Base.Bytes Model.WireTypes Spec.WireSpec Model.Addr Model.Cases15 Model.TextForms Model.TextComposites Model.Cases14.
 Open Scope N_scope.
 
 (* ---- round trips: decoding the encoding of an in-domain value yields that value ---- *)
@@ -70,6 +70,30 @@ Print Assumptions C14_segments_0.
 Theorem C14_segments_gap_refuted : exists v j, in_dom TySegments v = true /\ segments_to v = Some j /\ segments_of [] j <> Some v.
 Proof. exact segments_gap_refuted. Qed.
 Print Assumptions C14_segments_gap_refuted.
+
+(* ---- composites (values with the maps the library itself builds: doors 1..4, all seven weekdays, segments 1..3) ---- *)
+(* a card: any number, BOTH dates (the decoder refuses a card without dates), door values 0..255, PIN 0..999999 *)
+Theorem C14_card : forall n y1 m1 d1 y2 m2 d2 a b c d pin,
+  (0 <= n < 4294967296)%Z -> date_dom y1 m1 d1 = true -> (y1, m1, d1) <> (1, 1, 1)%Z -> date_dom y2 m2 d2 = true -> (y2, m2, d2) <> (1, 1, 1)%Z ->
+  u8 a = true -> u8 b = true -> u8 c = true -> u8 d = true -> (0 <= pin <= 999999)%Z ->
+  let v := VL [VZ n; cv_date y1 m1 d1; cv_date y2 m2 d2; VL [VZ a; VZ b; VZ c; VZ d]; VZ pin] in
+  exists j, card_to v = Some j /\ card_of j = POk v.
+Proof. exact card_roundtrip. Qed.
+Print Assumptions C14_card.
+Theorem C14_time_profile : forall id linked y1 m1 d1 y2 m2 d2 f1 f2 f3 f4 f5 f6 f7 a1 a2 a3 a4 b1 b2 b3 b4 c1 c2 c3 c4,
+  u8 id = true -> u8 linked = true -> date_dom y1 m1 d1 = true -> date_dom y2 m2 d2 = true ->
+  seg_dom a1 a2 a3 a4 = true -> seg_dom b1 b2 b3 b4 = true -> seg_dom c1 c2 c3 c4 = true ->
+  let v := VL [VZ id; VZ linked; cv_date y1 m1 d1; cv_date y2 m2 d2; VL (map flag [f1; f2; f3; f4; f5; f6; f7]);
+               VL [present (seg a1 a2 a3 a4); present (seg b1 b2 b3 b4); present (seg c1 c2 c3 c4)]] in
+  exists j, profile_to v = Some j /\ profile_of j = POk v.
+Proof. exact profile_roundtrip. Qed.
+Print Assumptions C14_time_profile.
+Theorem C14_task : forall ty door y1 m1 d1 y2 m2 d2 f1 f2 f3 f4 f5 f6 f7 h mi cards,
+  (0 <= ty <= 12)%Z -> u8 door = true -> u8 cards = true -> date_dom y1 m1 d1 = true -> date_dom y2 m2 d2 = true -> hhmm_dom h mi = true ->
+  let v := VL [VZ ty; VZ door; cv_date y1 m1 d1; cv_date y2 m2 d2; VL (map flag [f1; f2; f3; f4; f5; f6; f7]); cv_hhmm h mi; VZ cards] in
+  exists j, task_to v = Some j /\ task_of j = POk v.
+Proof. exact task_roundtrip. Qed.
+Print Assumptions C14_task.
 
 (* ---- rejections ---- *)
 (* ten characters dddd-dd-dd that are not a calendar date (2023-02-29, 2024-13-01, 2024-04-31, ...) *)
